@@ -25,4 +25,5 @@ DgC16 == {D(1, 1, TRUE, 1, "0"), D(1, 1, TRUE, 1, "max"), D(1, 2, TRUE, 1, "1"),
 RpC16 == {R(1, "0"), R(1, "fit"), R(1, "fit1"), R(1, "big"), R(4, "1000"), R(5, "1")}
 DgLong == {D(1, 1, TRUE, 1, "1"), D(1, 1, TRUE, 2, "0"), D(1, 2, TRUE, 1, "1")}
 RpLong == {R(2, "1")}
+NoMid == {}
 =============================================================================
